@@ -67,8 +67,23 @@ def stmt(rng, ints, bools, profile="full", lhs=None):
     if profile == "bwd":
         # backward-analysis profile (C11): invertible and NON-invertible assignments: division and multiplication by
         # small constants of either sign, x := x + k with x on both sides, select, assumes with bounds at -1, 0, 1
-        k = rng.choice(["sdivk"] * 3 + ["mulk"] * 2 + ["addk"] * 2 + ["assign", "assume", "assume", "havoc", "select", "selectself"])
+        k = rng.choice(["sdivk"] * 3 + ["mulk"] * 2 + ["addk"] * 2 + ["assign", "assume", "assume", "havoc", "select", "selectself",
+                                                                      "assignself", "assignself", "subself"])
         kc = lambda: rng.choice([-4, -3, -2, 2, 3, 4])
+        if k == "assignself":
+            # x := c*x + r with the assigned variable on the right-hand side: coefficient -1 (x := k - x, x := y - x, a toggled
+            # flag x := 1 - x), +1 or +-2, residual a constant or another variable
+            v = rng.choice(W)
+            t = [[rng.choice([-1, -1, -1, 1, 2, -2]), v]]
+            if rng.random() < 0.5:
+                t.append([rng.choice([1, 1, -1]), rng.choice([u for u in ints if u != v] or ints)])
+            rng.shuffle(t)
+            return {"op": "assign", "x": v, "e": {"k": rng.randint(-2, 2), "t": t}}
+        if k == "subself":      # x := y - x and x := x - y as arithmetic operations
+            v = rng.choice(W)
+            o = rng.choice([u for u in ints if u != v] or ints)
+            y, z = (o, v) if rng.random() < 0.6 else (v, o)
+            return {"op": "arith", "f": "sub", "x": v, "y": y, "zk": 0, "z": z}
         if k == "selectself":
             # x := ite(cond on x at -1/0/1, small constant or variable, ...): the condition reads the OLD value of the assigned variable
             v = rng.choice(W)
